@@ -156,6 +156,19 @@ pub fn eval(ctx: &Ctx, case: &Case) {
             // reference-made SPKI must decode
             let rspki = der::spki_encode(&sm2::encode_point(&want, false));
             same_pub(ctx, "Sm2PublicKey::from_public_key_der", &format!("reference-spki/{}", tag), guard(|| es(Sm2PublicKey::from_public_key_der(&rspki))), &want, &cj);
+            // the document OpenSSL writes with -conv_form compressed: subjectPublicKey = 02/03 || X
+            {
+                let cspki = der::spki_encode(&sm2::encode_point(&want, true));
+                same_pub(ctx, "Sm2PublicKey::from_public_key_der", &format!("reference-spki-compressed/{}", tag), guard(|| es(Sm2PublicKey::from_public_key_der(&cspki))), &want, &cj);
+                for (eol, en) in [("\n", "LF"), ("\r\n", "CRLF")] {
+                    for (doc, form) in [(&rspki, "uncompressed"), (&cspki, "compressed")] {
+                        let pem = der::pem_encode("PUBLIC KEY", doc, eol);
+                        assert_eq!(der::pem_decode(&pem, "PUBLIC KEY").as_ref(), Some(doc), "PEM writer self-check");
+                        same_pub(ctx, "Sm2PublicKey::from_public_key_pem", &format!("reference-pem-{}/{}/{}", form, en, tag), guard(|| es(Sm2PublicKey::from_public_key_pem(&pem))), &want, &cj);
+                        same_pub(ctx, "str::parse::<Sm2PublicKey>", &format!("reference-pem-{}/{}/{}", form, en, tag), guard(|| es(pem.parse::<Sm2PublicKey>())), &want, &cj);
+                    }
+                }
+            }
             for (le, name) in [(LineEnding::LF, "LF"), (LineEnding::CRLF, "CRLF")] {
                 ctx.call();
                 match guard(|| es(pk.to_public_key_pem(le))) {
@@ -280,6 +293,19 @@ pub fn eval(ctx: &Ctx, case: &Case) {
             }
             let rspki = der::spki_encode(&sm2::encode_point(&want, false));
             same_pub(ctx, "Sm2PublicKey::from_public_key_der", &format!("reference-spki/{}", tag), guard(|| es(Sm2PublicKey::from_public_key_der(&rspki))), &want, &cj);
+            // the document OpenSSL writes with -conv_form compressed: subjectPublicKey = 02/03 || X
+            {
+                let cspki = der::spki_encode(&sm2::encode_point(&want, true));
+                same_pub(ctx, "Sm2PublicKey::from_public_key_der", &format!("reference-spki-compressed/{}", tag), guard(|| es(Sm2PublicKey::from_public_key_der(&cspki))), &want, &cj);
+                for (eol, en) in [("\n", "LF"), ("\r\n", "CRLF")] {
+                    for (doc, form) in [(&rspki, "uncompressed"), (&cspki, "compressed")] {
+                        let pem = der::pem_encode("PUBLIC KEY", doc, eol);
+                        assert_eq!(der::pem_decode(&pem, "PUBLIC KEY").as_ref(), Some(doc), "PEM writer self-check");
+                        same_pub(ctx, "Sm2PublicKey::from_public_key_pem", &format!("reference-pem-{}/{}/{}", form, en, tag), guard(|| es(Sm2PublicKey::from_public_key_pem(&pem))), &want, &cj);
+                        same_pub(ctx, "str::parse::<Sm2PublicKey>", &format!("reference-pem-{}/{}/{}", form, en, tag), guard(|| es(pem.parse::<Sm2PublicKey>())), &want, &cj);
+                    }
+                }
+            }
             ctx.call();
             match guard(|| es(pk.to_public_key_der())) {
                 Guard::Done(Ok(doc)) if doc.as_bytes() == &rspki[..] => ctx.outcome(&format!("ok/pub-point/{}", tag)),
@@ -507,6 +533,19 @@ pub fn eval(ctx: &Ctx, case: &Case) {
                 }
                 "garbage" => vec![0xff; 40],
                 "offcurve-y" => der::sm2_cipher_encode(&x, &((&y + 1u32) % &pr.p), &ct.c3, &ct.c2),
+                // an off-curve C1 with the body an invalid-curve attacker would compute for it: a decoder that
+                // does not validate the point accepts this one (a wrong hash does not save it)
+                "offcurve-completed-(1,1)" | "offcurve-completed-(x,y+1)" | "offcurve-completed-(x+1,y)" => {
+                    let (fx, fy) = match kind.as_str() {
+                        "offcurve-completed-(1,1)" => (BigUint::one(), BigUint::one()),
+                        "offcurve-completed-(x,y+1)" => (x.clone(), (&y + 1u32) % &pr.p),
+                        _ => ((&x + 1u32) % &pr.p, y.clone()),
+                    };
+                    let fpt = Some((fx.clone(), fy.clone()));
+                    assert!(!sm2::params().curve.on_curve(&fpt), "fabricated point must be off the curve");
+                    let (c2f, c3f) = crate::c06::complete(&d, &fpt, &msg).expect("foreign-curve multiple is finite");
+                    der::sm2_cipher_encode(&fx, &fy, &c3f, &c2f)
+                }
                 "x-too-long" => der::sm2_cipher_encode(&(&x + (BigUint::one() << 256)), &y, &ct.c3, &ct.c2),
                 "short-hash" => der::sm2_cipher_encode(&x, &y, &ct.c3[..31], &ct.c2),
                 "trailing-bytes" => {
@@ -569,7 +608,7 @@ pub fn run(ctx: &Arc<Ctx>) {
     refmodels::selftest::run(&["sm3", "sm2"]).unwrap_or_else(|e| ctx.machinery_error(format!("reference self-test failed: {}", e)));
     let n = sm2::params().n.clone();
     let pr = sm2::params();
-    ctx.set_rule("keys {1,2,n-2,Annex,seeded,searched for leading/trailing zero bytes, high bit, both parities} through every encoder and decoder (SEC1 both forms, hex both cases, SPKI DER/PEM LF+CRLF, bytes, hex, PKCS#8 DER/PEM) with an independent DER reader on the library's documents; public points with the smallest x and with x within 2^64 of p (both roots), and points held as Jacobian key objects (Z in {2, p-1, seeded}), through every public-key encoder and decoder; PKCS#8 documents whose embedded public key belongs to another key or is off the curve (refused, or decoded to (d, [d]G)); 20 OpenSSL key pairs; decoder negatives: every length 0..=130 at Sm2PublicKey::new / from_hex_string / Sm2PrivateKey::new, off-curve and unreduced coordinates, foreign tags and valid encodings followed by 256 / 65536 further bytes via new / hex / SPKI; private keys of 32 + 256k bytes; ASN.1 ciphertext for message lengths {14..30, 120..160, 250..260, 65424..65436, 65534..65537} (every DER length form and the boundaries between them) and {1,32,100} x ephemeral scalars pre-searched so that C1.x / C1.y have 1..3 leading zero bytes, trailing zero bytes or the top bit set x 4 parameter combinations: document = GM/T 0009 SEQUENCE of (C1.x, C1.y, C3, C2) byte for byte, decrypt_asn1 of it, of the reference's and of OpenSSL's documents returns M; malformed documents are refused without a panic.");
+    ctx.set_rule("keys {1,2,n-2,Annex,seeded,searched for leading/trailing zero bytes, high bit, both parities} through every encoder and decoder (SEC1 both forms, hex both cases, SPKI DER/PEM LF+CRLF, bytes, hex, PKCS#8 DER/PEM) with an independent DER reader on the library's documents, and reference-written SPKI DER / PEM documents (LF and CRLF) carrying the uncompressed and the compressed point through from_public_key_der / from_public_key_pem / str::parse; public points with the smallest x and with x within 2^64 of p (both roots), and points held as Jacobian key objects (Z in {2, p-1, seeded}), through every public-key encoder and decoder; PKCS#8 documents whose embedded public key belongs to another key or is off the curve (refused, or decoded to (d, [d]G)); 20 OpenSSL key pairs; decoder negatives: every length 0..=130 at Sm2PublicKey::new / from_hex_string / Sm2PrivateKey::new, off-curve and unreduced coordinates, foreign tags and valid encodings followed by 256 / 65536 further bytes via new / hex / SPKI; private keys of 32 + 256k bytes; ASN.1 ciphertext for message lengths {14..30, 120..160, 250..260, 65424..65436, 65534..65537} (every DER length form and the boundaries between them) and {1,32,100} x ephemeral scalars pre-searched so that C1.x / C1.y have 1..3 leading zero bytes, trailing zero bytes or the top bit set x 4 parameter combinations: document = GM/T 0009 SEQUENCE of (C1.x, C1.y, C3, C2) byte for byte, decrypt_asn1 of it, of the reference's and of OpenSSL's documents returns M; malformed documents, and off-curve (x, y) whose body was completed on the foreign curve, are refused without a panic.");
     let mut cases: Vec<Case> = Vec::new();
     let mut g = SplitMix::new(ctx.seed, "c19");
     let mut keys: Vec<(String, BigUint)> = vec![("1".into(), BigUint::one()), ("2".into(), BigUint::from(2u32)), ("n-2".into(), &n - 2u32), ("annex".into(), hb(ANNEX_D))];
@@ -710,7 +749,7 @@ pub fn run(ctx: &Arc<Ctx>) {
     for idx in 0..openssl_cts().len() {
         cases.push(Case::Asn1OpenSsl { idx });
     }
-    for kind in ["empty", "truncated", "not-sequence", "garbage", "offcurve-y", "x-too-long", "short-hash", "trailing-bytes"] {
+    for kind in ["empty", "truncated", "not-sequence", "garbage", "offcurve-y", "offcurve-completed-(1,1)", "offcurve-completed-(x,y+1)", "offcurve-completed-(x+1,y)", "x-too-long", "short-hash", "trailing-bytes"] {
         cases.push(Case::Asn1Bad { kind: kind.into() });
     }
     ctx.note_bound(format!("{} cases", cases.len()));
